@@ -83,7 +83,10 @@ class RealRays(BaseRays):
         self.z += t * self.N
 
         if material is not None:
-            k = material.k(self.w)
+            try:
+                k = material.k(self.w)
+            except ValueError:
+                k = 0.0  # no extinction data for this medium: no attenuation
             alpha = 4 * np.pi * k / self.w
             self.i *= np.exp(-alpha * t * 1e3)  # mm to microns
 
